@@ -912,3 +912,56 @@ mod tests {
 		assert!(res.is_none());
 	}
 }
+
+/// Verification hooks (feature `_verif_hooks` only): run the crate-private [`read`] dispatch on a
+/// complete frame and report the outcome in a form external checkers can compare.
+#[cfg(feature = "_verif_hooks")]
+pub mod verif_hooks_wire {
+	use super::*;
+	use crate::ln::peer_handler::IgnoringMessageHandler;
+	use crate::prelude::*;
+
+	/// A successfully decoded frame.
+	pub struct Decoded {
+		/// The message type the frame was dispatched on.
+		pub type_id: u16,
+		/// Whether the type was not known (`Message::Unknown`).
+		pub unknown: bool,
+		/// The decoded message written back with its own `Writeable` impl (without the type).
+		pub payload: Vec<u8>,
+		/// `Debug` rendering of the decoded message.
+		pub debug: String,
+		/// Number of bytes of the frame left unread.
+		pub remaining: usize,
+		/// Whether writing the decoded message and reading the result yields an equal message.
+		pub reencode_stable: bool,
+	}
+
+	/// Decodes `frame` (2-byte type followed by the payload) with [`read`]. The error is the
+	/// `Debug` rendering of the [`msgs::DecodeError`] and the type if it could be read.
+	pub fn wire_read(frame: &[u8]) -> Result<Decoded, (String, Option<u16>)> {
+		let mut buf = frame;
+		match read(&mut buf, &IgnoringMessageHandler {}) {
+			Ok(msg) => {
+				let type_id = msg.type_id();
+				let payload = msg.encode();
+				let mut again = Vec::with_capacity(payload.len() + 2);
+				again.extend_from_slice(&type_id.to_be_bytes());
+				again.extend_from_slice(&payload);
+				let reencode_stable = match read(&mut &again[..], &IgnoringMessageHandler {}) {
+					Ok(msg2) => msg2 == msg,
+					Err(_) => false,
+				};
+				Ok(Decoded {
+					type_id,
+					unknown: matches!(msg, Message::Unknown(_)),
+					payload,
+					debug: format!("{:?}", msg),
+					remaining: buf.len(),
+					reencode_stable,
+				})
+			},
+			Err((e, t)) => Err((format!("{:?}", e), t)),
+		}
+	}
+}
